@@ -51,3 +51,16 @@ def mod_raise(key):
 
 def mod_echo(*args, **kwargs):
     return (args, kwargs)
+
+
+def mod_slow(x, delay):
+    """a call that takes a while (longer than any connect/handshake timeout a worker could leave behind)"""
+    import time
+    time.sleep(delay)
+    return ('slow', x * x)
+
+
+def mod_slow_raise(x, delay):
+    import time
+    time.sleep(delay)
+    raise ModErr(x, 'too late')
